@@ -234,6 +234,48 @@ Definition ifinal (bind : bool) (e : env) (deliv ms : list (I * msg)) : pstate :
 
 End Ids.
 
+(* ---- two groups: the verifier is a member of groups A and B and runs one signing party for a block
+   of each.  The sign-key lookup is a function of (group, member): each party consults the joined-group
+   record of its own group ([e_members] of its own environment), so a message concerning group A
+   touches only A's party. ---- *)
+Inductive gtag := GA | GB.
+
+Definition two_step (bind : bool) (eA eB : env) (st : pstate * pstate) (ev : gtag * msg) : pstate * pstate :=
+  match fst ev with
+  | GA => (fst (party_step bind eA (fst st) (snd ev)), snd st)
+  | GB => (fst st, fst (party_step bind eB (snd st) (snd ev)))
+  end.
+
+Definition two_run (bind : bool) (eA eB : env) (evs : list (gtag * msg)) : pstate * pstate :=
+  fold_left (two_step bind eA eB) evs (p_init eA, p_init eB).
+
+Definition is_gb (ev : gtag * msg) : bool := match fst ev with GB => true | GA => false end.
+
+(* a lookup that also consults state keyed by the member alone: while a key request for a member is
+   pending (sent when some group's lookup found no key for him) his key reads as missing in every
+   group.  NOT what the node does; the variant the non-interference theorem excludes. *)
+Definition hide (pending : list T) (e : env) : env :=
+  Env (e_bh e) (e_pr e)
+      (filter (fun x => negb (existsb (ideq (fst x)) pending)) (e_members e))
+      (e_thr e) (e_existed e) (e_gsk e).
+
+Definition pend_step (bind : bool) (eA eB : env) (st : pstate * pstate * list T) (ev : gtag * msg)
+  : pstate * pstate * list T :=
+  let '(pa, pb, pending) := st in
+  let e := match fst ev with GA => eA | GB => eB end in
+  let pending' :=
+    match lookup (m_sender (snd ev)) (e_members e) with
+    | None => m_sender (snd ev) :: pending
+    | Some _ => pending
+    end in
+  match fst ev with
+  | GA => (fst (party_step bind (hide pending eA) pa (snd ev)), pb, pending')
+  | GB => (pa, fst (party_step bind (hide pending eB) pb (snd ev)), pending')
+  end.
+
+Definition pend_run (bind : bool) (eA eB : env) (evs : list (gtag * msg)) : pstate * pstate * list T :=
+  fold_left (pend_step bind eA eB) evs (p_init eA, p_init eB, []).
+
 (* ---- before the round: Processor.OnMessageVerify / OnMessageCast / waitUntilDone
    (processor_party.go) for the block with hash [e_bh e] ----
    A verify message is routed by its BlockHash field: to the party registered under that hash if there
